@@ -207,7 +207,23 @@ impl<Rounds: Unsigned + Default> NewCipher for ChaChaAny<U24, Rounds, X> {
 impl<NonceSize: Unsigned, Rounds, IsX> StreamCipherSeek for ChaChaAny<NonceSize, Rounds, IsX> {
     #[inline]
     fn try_current_pos<T: SeekNum>(&self) -> Result<T, OverflowError> {
-        unimplemented!()
+        let buf = &self.state;
+        // Blocks generated so far; `len` counts the blocks remaining.
+        let generated: u128 = if NonceSize::U32 == 12 {
+            u128::from(SMALL_LEN - buf.len)
+        } else if !buf.fresh && buf.len == 0 {
+            1 << 64
+        } else {
+            u128::from(BIG_LEN.wrapping_sub(buf.len))
+        };
+        // have > 0: that many bytes of the last generated block are unread;
+        // have <= 0: -have bytes into the next block (not generated yet).
+        let (block, byte) = if buf.have > 0 {
+            (generated - 1, BLOCK as u8 - buf.have as u8)
+        } else {
+            (generated, (-buf.have) as u8)
+        };
+        T::from_block_byte(block, byte, BLOCK as u8)
     }
     #[inline(always)]
     fn try_seek<T: SeekNum>(&mut self, pos: T) -> Result<(), LoopError> {
